@@ -1,6 +1,7 @@
 package props
 
 import (
+	"go/ast"
 	"fmt"
 	"sort"
 	"strings"
@@ -68,38 +69,57 @@ func C06(p *core.Program, r *core.Report) {
 		}
 		r.Add("U1", "construction sites of webdoc."+tn+" found", "", n >= 1, fmt.Sprintf("%d literals", n))
 	}
-	if fb := mustFunc(p, r, "U1", "(*"+webdocPkg+".WebDocumentBuilder).flushBlock"); fb != nil {
+	{
+		// every Text that a builder method appends to the document got the builder's page URL
+		// first (builder methods with helpers expanded; the page URL is the builder's *url.URL field)
 		c := core.NewCanon(p)
-		adds := core.Calls(fb, func(ci ssa.CallInstruction) bool {
-			return core.IsCallTo(ci, "(*"+webdocPkg+".WebDocumentBuilder).addText")
-		})
-		if len(adds) != 1 {
-			r.Add("U1", "flushBlock hands the built Text to addText once", p.Pos(fb.Pos()), false, fmt.Sprintf("%d calls", len(adds)))
-		} else {
-			ok, w := core.MustPassThrough(fb, adds[0], func(in ssa.Instruction) bool {
-				st, isSt := in.(*ssa.Store)
-				return isSt && strings.HasSuffix(c.Of(st.Addr), ".PageURL") && strings.Contains(c.Of(st.Addr), "TextBuilder.Build(") && c.Of(st.Val) == "$0.pageURL"
-			}, nil)
-			r.Add("U1", "every Text gets the builder's page URL before it enters the document", p.Pos(adds[0].Pos()), ok, "store text.PageURL = db.pageURL must precede addText on every path", w...)
+		nSites := 0
+		for _, fn := range p.ModFunctions(false) {
+			if !strings.Contains(fn.String(), "webdoc.WebDocumentBuilder)") || !ast.IsExported(fn.Name()) {
+				continue
+			}
+			m := p.Inlined(fn)
+			for _, add := range core.Calls(m, func(ci ssa.CallInstruction) bool { return core.IsCallTo(ci, "(*"+webdocPkg+".Document).AddElements") }) {
+				isText := false
+				for _, a := range add.Common().Args[1:] {
+					if el := appendedElem2(a); el != nil {
+						a = el
+					}
+					if nt := core.NamedOf(core.StripConv(a).Type()); nt != nil && nt.Obj().Name() == "Text" {
+						isText = true
+					}
+				}
+				if !isText {
+					continue
+				}
+				nSites++
+				ok, w := core.MustPassThrough(m, add, func(in ssa.Instruction) bool {
+					st, isSt := in.(*ssa.Store)
+					return isSt && strings.HasSuffix(c.Of(st.Addr), ".PageURL") && strings.Contains(c.Of(st.Addr), "TextBuilder.Build(") && c.Of(st.Val) == "$0.‹*url.URL›"
+				}, nil)
+				r.Add("U1", "every Text gets the builder's page URL before it enters the document: "+fn.Name(), p.Pos(add.Pos()), ok, "a store text.PageURL = <builder's page URL> must precede the append on every path", w...)
+			}
 		}
+		r.Add("U1", "builder methods that append text elements found", "", nSites >= 4, fmt.Sprintf("%d append sites", nSites))
 		// Text values are constructed only by TextBuilder.Build
 		for _, fn := range p.ModFunctions(false) {
 			for _, a := range allocsOf(fn, "/internal/webdoc", "Text") {
 				if a.Comment == "complit" {
-					r.Add("U1", "webdoc.Text is constructed by "+core.ShortKey(fn), p.Pos(a.Pos()), strings.HasSuffix(fn.String(), "webdoc.TextBuilder).Build"), "Text elements must come from TextBuilder.Build so that flushBlock can set their PageURL")
+					bd := p.Func("(*" + core.ExpandKey(webdocPkg) + ".TextBuilder).Build")
+					r.Add("U1", "webdoc.Text is constructed by "+core.ShortKey(fn), p.Pos(a.Pos()), bd != nil && inRegion(p, bd, fn), "Text elements must come from TextBuilder.Build so that flushing can set their PageURL")
 				}
 			}
 		}
 	}
 	// NewWebDocumentBuilder / NewDomConverter / extractors receive the extractor's page URL
-	if cw := mustFunc(p, r, "U1", "(*"+extractorPkg+".ContentExtractor).createWebDocumentInfoFromPage"); cw != nil {
+	if cw := mustInl(p, r, "U1", "(*"+extractorPkg+".ContentExtractor).ExtractContent"); cw != nil {
 		c := core.NewCanon(p)
 		for _, call := range core.Calls(cw, func(ci ssa.CallInstruction) bool {
 			return core.IsCallTo(ci, webdocPkg+".NewWebDocumentBuilder", converterPkg+".NewDomConverter")
 		}) {
 			found := false
 			for _, a := range call.Common().Args {
-				if c.Of(a) == "$0.pageURL" {
+				if c.Of(a) == "$0.‹*url.URL›" {
 					found = true
 				}
 			}
@@ -172,7 +192,7 @@ func C06(p *core.Program, r *core.Report) {
 	}
 	r.Add("U2", "absolutiser call sites in package webdoc", "", nBase >= 8, fmt.Sprintf("%d", nBase))
 	// Video poster
-	if vg := mustFunc(p, r, "U2", "(*"+webdocPkg+".Video).GenerateOutput"); vg != nil {
+	if vg := mustInl(p, r, "U2", "(*"+webdocPkg+".Video).GenerateOutput"); vg != nil {
 		found := false
 		for _, call := range core.Calls(vg, func(ci ssa.CallInstruction) bool { return core.IsCallTo(ci, "github.com/go-shiori/dom.SetAttribute") }) {
 			if k, _ := core.ConstString(call.Common().Args[1]); k == "poster" {
@@ -183,12 +203,12 @@ func C06(p *core.Program, r *core.Report) {
 		r.Add("U2", "Video poster is absolutised against the page URL", p.Pos(vg.Pos()), found, "")
 	}
 	// CloneAndProcessList absolutises with its pageURL parameter
-	if cl := mustFunc(p, r, "U2", domutilPkg+".CloneAndProcessList"); cl != nil {
+	if cl := mustInl(p, r, "U2", domutilPkg+".CloneAndProcessList"); cl != nil {
 		ok := false
 		for _, call := range core.Calls(cl, func(ci ssa.CallInstruction) bool { return core.IsCallTo(ci, absLinksKey) }) {
 			ok = c.Of(call.Common().Args[1]) == "$1"
 		}
-		r.Add("U2", "CloneAndProcessList absolutises with the URL it is given", p.Pos(cl.Pos()), ok && absLinks[cl], "")
+		r.Add("U2", "CloneAndProcessList absolutises with the URL it is given", p.Pos(cl.Pos()), ok && absLinks[p.Original(cl)], "")
 	}
 
 	// ---- U3
@@ -203,7 +223,7 @@ func C06(p *core.Program, r *core.Report) {
 	}
 	sort.Strings(ks)
 	for _, k := range ks {
-		fn := mustFunc(p, r, "U3", k)
+		fn := mustInl(p, r, "U3", k)
 		if fn == nil {
 			continue
 		}
@@ -228,7 +248,7 @@ func C06(p *core.Program, r *core.Report) {
 		}
 		r.Add("U3", core.ShortKey(fn)+" covers its documented elements/attributes", p.Pos(fn.Pos()), len(missing) == 0, fmt.Sprintf("missing: %v", missing))
 	}
-	if ml := mustFunc(p, r, "U3", absLinksKey); ml != nil {
+	if ml := mustInl(p, r, "U3", absLinksKey); ml != nil {
 		n1 := len(core.Calls(ml, func(ci ssa.CallInstruction) bool { return core.IsCallTo(ci, absSrcKey) }))
 		n2 := len(core.Calls(ml, func(ci ssa.CallInstruction) bool { return core.IsCallTo(ci, absSrcSetKey) }))
 		r.Add("U3", "MakeAllLinksAbsolute also absolutises src and srcset", p.Pos(ml.Pos()), n1 == 1 && n2 == 1, "")
@@ -247,7 +267,7 @@ func C06(p *core.Program, r *core.Report) {
 			}
 		}
 	}
-	if ca := mustFunc(p, r, "U3", createAbsKey); ca != nil {
+	if ca := mustInl(p, r, "U3", createAbsKey); ca != nil {
 		paths, atoms, err := core.EnumerateDecisions(p, ca, core.DecisionOpts{Outcome: func(in ssa.Instruction, c *core.Canon) (string, bool) {
 			if ret, ok := in.(*ssa.Return); ok {
 				return "return " + c.Of(ret.Results[0]), true
@@ -319,7 +339,7 @@ func C06(p *core.Program, r *core.Report) {
 func checkImageURLSources(p *core.Program, r *core.Report, rule string) {
 	c := core.NewCanon(p)
 	for _, key := range []string{"(*" + webdocPkg + ".Image).GetURLs", "(*" + webdocPkg + ".Table).GetImageURLs"} {
-		fn := mustFunc(p, r, rule, key)
+		fn := mustInl(p, r, rule, key)
 		if fn == nil {
 			continue
 		}
@@ -329,16 +349,19 @@ func checkImageURLSources(p *core.Program, r *core.Report, rule string) {
 		for _, call := range core.Calls(fn, func(ci ssa.CallInstruction) bool {
 			return core.IsCallTo(ci, "github.com/go-shiori/dom.GetAttribute", "github.com/go-shiori/dom.QuerySelectorAll", domutilPkg+".GetAllSrcSetURLs", domutilPkg+".GetSrcSetURLs")
 		}) {
+			if v, isV := call.(ssa.Value); !isV || !flowsToReturn(v) {
+				continue // not a source of the returned URLs (e.g. attribute handling while the clone is made)
+			}
 			n++
 			a0 := c.Of(call.Common().Args[0])
 			srcs = append(srcs, a0)
-			if a0 != "$0.cloned" && !strings.HasPrefix(a0, "elem(dom.QuerySelectorAll($0.cloned,") {
+			if a0 != "$0.‹*html.Node›" && !strings.HasPrefix(a0, "elem(dom.QuerySelectorAll($0.‹*html.Node›,") {
 				okAll = false
 			}
 		}
 		r.Add(rule, core.ShortKey(fn)+" reads the processed clone that is serialised", p.Pos(fn.Pos()), okAll && n >= 2, strings.Join(srcs, " ; "))
 	}
-	if fg := mustFunc(p, r, rule, "(*"+webdocPkg+".Document).GetImageURLs"); fg != nil {
+	if fg := mustInl(p, r, rule, "(*"+webdocPkg+".Document).GetImageURLs"); fg != nil {
 		hs := loopHeaders(fg)
 		if len(hs) == 1 {
 			paths, _, _ := core.EnumerateDecisions(p, fg, core.DecisionOpts{IterateAt: hs[0], Outcome: noOutcome, Event: func(in ssa.Instruction, c *core.Canon) (string, bool) {
@@ -372,7 +395,7 @@ func checkImageURLSources(p *core.Program, r *core.Report, rule string) {
 // must tokenise the attribute with the same regular expression (and nothing else).
 func checkSrcsetAgreement(p *core.Program, r *core.Report, rule string) {
 	for _, key := range []string{domutilPkg + ".makeSrcSetAbsolute", domutilPkg + ".GetSrcSetURLs"} {
-		fn := mustFunc(p, r, rule, key)
+		fn := mustInl(p, r, rule, key)
 		if fn == nil {
 			continue
 		}
